@@ -116,7 +116,27 @@ class Scatterer(HoloPyObject):
             passed to Scatterer.from_parameters to make a copy of this
             scatterer
         """
-        return deepcopy(self._parameters)
+        # a copy whose containers are new but whose prior objects are the
+        # scatterer's own: a prior that is also used outside the scatterer
+        # (as the model's alpha, the medium index, a theory parameter) has to
+        # stay the same object to be recognized as one parameter
+        from holopy.core.prior import Prior
+        memo = {}
+
+        def keep_priors(item):
+            if isinstance(item, Prior):
+                memo[id(item)] = item
+            elif isinstance(item, dict):
+                for value in item.values():
+                    keep_priors(value)
+            elif isinstance(item, (list, tuple)):
+                for value in item:
+                    keep_priors(value)
+            elif hasattr(item, 'dtype') and item.dtype == object:
+                for value in np.asarray(item).ravel():
+                    keep_priors(value)
+        keep_priors(self._parameters)
+        return deepcopy(self._parameters, memo)
 
     def from_parameters(self, parameters):
         """
